@@ -199,10 +199,13 @@ def other_requests(api, opts, work):
         elif isinstance(x, list):
             for v in x:
                 walk(v)
+    # (c) the same API without its module-name collisions (a field named like the other file's module needs an import alias in
+    # the request under test and none in this twin)
+    noalias = json.loads(json.dumps(api).replace('"name": "common"', '"name": "commonx"').replace('name,common"', 'name,commonx"'))
     walk(alt)
     walk(v2)          # the twin in the next version differs in its patterns as well (first-wins and last-wins memos both see a difference)
     out = []
-    for k, a in (('v2', v2), ('alt', alt)):
+    for k, a in (('v2', v2), ('alt', alt), ('noalias', noalias)):
         d = os.path.join(work, 'hist-' + k); os.makedirs(d, exist_ok=True)
         out.append(absapi.build_request(a, gen.option_string(opts, d, a)).SerializeToString())
     return out
@@ -258,13 +261,14 @@ def main(chk, args):
                 paths.append(os.path.join(wdir, f'req{k}.bin'))
                 with open(paths[-1], 'wb') as f:
                     f.write(rb)
-            warm = ([([paths[0], paths[-1]], seeds[0], cwd1), ([paths[1], paths[-1]], seeds[1], cwd2), ([paths[-1], paths[-1]], seeds[-1], cwd1)]
+            warm = ([([paths[0], paths[-1]], seeds[0], cwd1), ([paths[1], paths[-1]], seeds[1], cwd2), ([paths[2], paths[-1]], seeds[0], cwd2),
+                     ([paths[-1], paths[-1]], seeds[-1], cwd1)]
                     if name.startswith('stress') or not quick else [])
             with ThreadPoolExecutor(8) as ex:
                 fw = [ex.submit(run_warm, w) for w in warm]
                 res = list(ex.map(run_one, jobs))
                 wres = [f.result() for f in fw]
-            hist = ['fresh'] * len(res) + ['after_other', 'after_other', 'after_same'][:len(wres)]
+            hist = ['fresh'] * len(res) + ['after_other', 'after_other', 'after_other', 'after_same'][:len(wres)]
             res += wres
             digests = []
             events = []
